@@ -256,6 +256,89 @@ def main_returns() -> list[tuple[str, bool, int]]:
     return sorted(out, key=lambda t: t[2])
 
 
+
+# ------------------------------------------------------------------ path-valued options (C18: same normalisation on every route)
+def _type_name(t) -> str:
+    if t is None:
+        return "None"
+    if isinstance(t, type):
+        return t.__name__
+    return type(t).__name__ if not callable(t) or not hasattr(t, "__name__") else t.__name__
+
+
+def action_types() -> list[tuple[str, str]]:
+    """(dest, name of the argparse `type=` conversion) for every action: `None` (the string is stored), `str`, `Path`,
+    `FileType` (argparse opens the raw string), a function name, …"""
+    from datamodel_code_generator.arguments import arg_parser
+
+    return [(a.dest, _type_name(a.type)) for a in arg_parser._actions]  # noqa: SLF001
+
+
+def path_fields() -> list[tuple[str, str]]:
+    """(Config field, `path` | `file`) for every field whose annotation mentions a Path type or an opened text file"""
+    import typing
+    from io import TextIOBase
+
+    from datamodel_code_generator.__main__ import Config
+
+    def leaves(t):
+        args = typing.get_args(t)
+        if not args:
+            yield t
+        for a in args:
+            yield from leaves(a)
+
+    out = []
+    for name, f in Config.get_fields().items():
+        ls = [x for x in leaves(getattr(f, "annotation", None)) if isinstance(x, type)]
+        if any(issubclass(x, PurePath) for x in ls):
+            out.append((name, "path"))
+        elif any(issubclass(x, (TextIOBase, io.IOBase)) for x in ls):
+            out.append((name, "file"))
+    return out
+
+
+def field_validators() -> list[tuple[str, list[str]]]:
+    """(Config field, names of the `mode="before"` field validators registered for it), from pydantic's decorator table"""
+    from datamodel_code_generator.__main__ import Config
+
+    out: dict[str, list[str]] = {}
+    decs = getattr(Config, "__pydantic_decorators__", None)
+    if decs is not None:
+        for name, d in decs.field_validators.items():
+            if getattr(d.info, "mode", "") != "before":
+                continue
+            for f in d.info.fields:
+                out.setdefault(f, []).append(name)
+    return sorted((f, sorted(v)) for f, v in out.items())
+
+
+def validator_branches() -> list[tuple[str, list[tuple[str, str]]]]:
+    """for the validators of the path/file fields: every `return` in source order as (condition text of the enclosing
+    `if`, or `else` for the final one; text of the returned expression)"""
+    wanted = sorted({v for f, vs in field_validators() if f in dict(path_fields()) for v in vs})
+    tree = ast.parse((SRC / "__main__.py").read_text())
+    out = []
+    for name in wanted:
+        fn = _func(tree, name)
+        rows: list[tuple[str, str]] = []
+        if fn is not None:
+            def walk(stmts, cond):
+                for s in stmts:
+                    if isinstance(s, ast.Return):
+                        rows.append((cond, ast.unparse(s.value) if s.value else "None"))
+                    elif isinstance(s, ast.If):
+                        walk(s.body, ast.unparse(s.test) if cond == "else" else cond + " and " + ast.unparse(s.test))
+                        walk(s.orelse, cond)
+                    elif isinstance(s, (ast.Expr, ast.Pass)) and not (isinstance(s, ast.Expr) and not isinstance(s.value, ast.Constant)):
+                        continue
+                    else:
+                        rows.append((cond, "<statement> " + ast.unparse(s)[:80]))
+            walk(fn.body, "else")
+        out.append((name, rows))
+    return out
+
+
 # ------------------------------------------------------------------ rendering
 def _pairs(ps: list[tuple[str, str]]) -> str:
     if not ps:
@@ -352,6 +435,24 @@ def generate() -> str:
     out.append(
         "/-- target versions on which `PythonVersion.has_kw_only_dataclass` holds (used by a Config validator) -/\n"
         f"def kwOnlyTargets : List Nat := {_strs(kw_only_targets())}\n"
+    )
+    out.append(
+        "/-- (dest, name of the argparse `type=` conversion) of every action -/\n"
+        f"def actionTypes : List (Nat × Nat) :=\n  {_pairs(action_types())}\n"
+    )
+    out.append(
+        "/-- `Config` fields whose annotation is a Path (`path`) or an opened text file (`file`) -/\n"
+        f"def pathFields : List (Nat × Nat) :=\n  {_pairs(path_fields())}\n"
+    )
+    rows = [f"({k(f)}, {_strs(vs)})" for f, vs in field_validators()]
+    out.append(
+        "/-- `mode=\"before\"` field validators of `Config` per field -/\n"
+        "def fieldValidators : List (Nat × List Nat) :=\n  [" + ",\n   ".join(rows) + "]\n"
+    )
+    rows = [f"({k(n)},\n   {_pairs(bs)})" for n, bs in validator_branches()]
+    out.append(
+        "/-- the validators of the path / file fields: every `return` as (condition, returned expression), source text -/\n"
+        "def validatorBranches : List (Nat × List (Nat × Nat)) :=\n  [" + ",\n   ".join(rows) + "]\n"
     )
     out.append("end Dcg.Gen.CliTables")
     return "\n".join(out) + "\n"
